@@ -1517,9 +1517,12 @@ class GeoboxTiles:
         xy_chunks_with_data = list(self.tiles(src_footprint))
         deps: Dict[Tuple[int, int], List[Tuple[int, int]]] = {}
 
+        same_crs = src.base.crs == self.base.crs
         for idx in xy_chunks_with_data:
             geobox = self[idx]
-            deps[idx] = list(src.tiles(geobox.extent))
+            # sides of the tile are curved in the other CRS, 4 corner points are not enough
+            query = geobox.extent if same_crs else geobox.footprint(src.base.crs)
+            deps[idx] = list(src.tiles(query))
 
         return deps
 
